@@ -97,6 +97,9 @@ func seqCases(prop, tier string, seed uint64) []Case {
 		cfg := cfgs[i%len(cfgs)]
 		st := steps/2 + r.Intn(steps/2+1)
 		p := seqP{Cfg: cfg, Steps: st, Exotic: i%3 == 2}
+		if prop == "C05" && i%8 == 7 {
+			p.Cfg.Overwrite = true
+		}
 		if i%48 == 47 && prop != "C07" && prop != "C01" {
 			// long histories over many names: wide directories (dozens of children), tapes of hundreds of records
 			p.Steps = st * 5
@@ -677,6 +680,17 @@ func seqRun(prop, tier string, c Case, w *Worker) (res Result) {
 	}
 	res.Detail = map[string]any{"cfg": cfg, "ops": &h.ops, "outcomes": &h.outs}
 	h.ops = append(h.ops, Op{K: "initialize", A: "/"})
+	if cfg.Overwrite {
+		// an old archive is on the drive; the explicit initialise (first writer of an overwriting manager) replaces it - the stated
+		// exception - and from then on the tape is append-only like any other
+		old := genContent(5*512, "text", c.Seed)
+		_ = os.WriteFile(rig.Drive, old, 0o666)
+		if err := rig.WOps.Initialize("/", os.ModePerm, rig.Cfg.Level); err != nil {
+			h.violate("init", "Operations.Initialize with an overwriting drive manager failed: %v", err)
+			return
+		}
+		rig.LocksSettled()
+	}
 	if err := rig.Init(); err != nil {
 		h.violate("init", "Initialize on an empty drive failed: %v", err)
 		return
@@ -725,6 +739,7 @@ func seqRun(prop, tier string, c Case, w *Worker) (res Result) {
 		var op Op
 		if len(p.Ops) > 0 {
 			op = p.Ops[h.step]
+			op.A, op.B = strings.ReplaceAll(op.A, "{E9}", "\xe9"), strings.ReplaceAll(op.B, "{E9}", "\xe9")
 		} else {
 			op = gen.Next(h.tree)
 		}
